@@ -17,6 +17,7 @@ func init() {
 			"D3 decoding is additive and block-local — inside the sketch decoder and every store decoder, every write to sketch/store state is an accumulation (x += e, Add/AddWithCount, append to the buffer, page[i] += c) or lives in the paginated store's representation routines; the only plain assignment (the mapping) is guarded by nil-or-Equals (C08-D3); the block loop carries no state from one block to the next (no φ at its header). This is the structural reason why decoding into a non-empty sketch is a merge and why concatenated encodings decode to the merge of the parts. "+
 			"D4 encoding only appends — every store to the caller's buffer in the encoding primitives and in every Encode method is `*b = append(*b, …)`; EncodeFloat64LE writes only into the 8 bytes it has just appended; the receiver's observable write set is empty (C14-D1 obligation re-evaluated for every Encode). "+
 			"D5 omitIndexMapping: true → no mapping block, false → exactly one. "+
+			"SHARED (obligations of other properties that decide clauses this property states too, re-evaluated here under their home rule ids): C19-D1 binary part (the embedded mapping block is written from the gamma and offset fields and read back into the same kind). "+
 			"NOT DECIDED: bit-exact equality of weights after the round trip, which layout is chosen for given data, clamping into bounded target stores.",
 		"one obligation per writer block / reader arm / delta site / state write in a decoder / buffer store in an encoder",
 		false, runC06)
@@ -34,6 +35,8 @@ func runC06(c *Ctx) {
 	c06Additive(c, a)
 	c06AppendOnly(c, a)
 	c06Omit(c, a)
+	// the embedded mapping round-trips: each kind writes its flag, gamma, offset and the reader arm of that flag rebuilds the same kind
+	c.shared(func() { c19Binary(c, mappingInfos(c, "C06")) }, func(o *Obligation) bool { return true })
 }
 
 func c06Sides(c *Ctx, a *sketchAnchors) {
